@@ -88,7 +88,7 @@ def run(ctx):
                  script=[{"op": "rel", "host": "src", "class": "manifest_get", "n": "S"},
                          {"op": "rel", "host": "src", "class": "blob_get", "n": "L2"}, {"op": "settle"},
                          {"op": "rel", "host": "src", "class": "blob_get", "n": "LB"}, {"op": "settle"}])
-    scns = scripts + sw + sh_sw + slow + rew
+    scns = scripts + sw + sh_sw + slow + rew + e.client_history("history")
     scns, dropped = cc.limit_defect_prone(rng, scns, 700 if th else 300)
     res = bres + e.run(scns + [demo], "faults")
 
